@@ -204,6 +204,7 @@ class Entry:
     fn: str
     line: int
     record: tuple | None
+    key: tuple | None = None
 
 
 def _value_field(prov: Prov, v) -> str | None:
@@ -257,6 +258,10 @@ def dict_builder_entries(cx: Cx, fn: FunctionInfo, table: str, ob_id: str) -> li
                     out.append(
                         Entry(table, frozenset(f for r, f in kf if r != "?"), any(r == "?" for r, _ in kf), v, _value_field(prov, v), _conds(ectx, s, ev) + _partial_cond(prov, k), where(fn, ev.line), fn.qualname, ev.line, rec)
                     )
+                elif ev.kind == "expr" and op(ev.a) == "call" and callee_name(ev.a) == "setdefault" and ev.a[1][1] == t and len(ev.a[2]) == 2:
+                    k, v = ev.a[2]
+                    kf = prov.fields(k)
+                    out.append(Entry(table, frozenset(f for r, f in kf if r != "?"), any(r == "?" for r, _ in kf), v, _value_field(prov, v), _conds(ectx, s, ev) + _partial_cond(prov, k), where(fn, ev.line), fn.qualname, ev.line, prov.record_of(k), k))
                 elif (fk := _fromkeys_update(ev, t)) is not None:
                     keys, v = fk
                     kf = iter_fields(prov, keys)
@@ -415,7 +420,7 @@ def index_method_entries(cx: Cx, fn: FunctionInfo, ob_id: str) -> dict[str, list
             table = tgt[1][2]
             kf = prov.fields(tgt[2])
             out.setdefault(table, []).append(
-                Entry(table, frozenset(f for r, f in kf if r != "?"), any(r == "?" for r, _ in kf), ev.b, _value_field(prov, ev.b), _conds(ctx, s, ev) + _partial_cond(prov, tgt[2]), where(fn, ev.line), fn.qualname, ev.line, prov.record_of(tgt[2]))
+                Entry(table, frozenset(f for r, f in kf if r != "?"), any(r == "?" for r, _ in kf), ev.b, _value_field(prov, ev.b), _conds(ctx, s, ev) + _partial_cond(prov, tgt[2]), where(fn, ev.line), fn.qualname, ev.line, prov.record_of(tgt[2]), tgt[2])
             )
     for ev, ctx in s.distinct_events("expr"):
         c = ev.a
@@ -433,7 +438,7 @@ def index_method_entries(cx: Cx, fn: FunctionInfo, ob_id: str) -> dict[str, list
             table = c[1][1][2]
             kf = prov.fields(c[2][0])
             out.setdefault(table, []).append(
-                Entry(table, frozenset(f for r, f in kf if r != "?"), any(r == "?" for r, _ in kf), c[2][1], _value_field(prov, c[2][1]), _conds(ctx, s, ev) + ((("absent",), True),), where(fn, ev.line), fn.qualname, ev.line, prov.record_of(c[2][0]))
+                Entry(table, frozenset(f for r, f in kf if r != "?"), any(r == "?" for r, _ in kf), c[2][1], _value_field(prov, c[2][1]), _conds(ctx, s, ev) + ((("absent",), True),), where(fn, ev.line), fn.qualname, ev.line, prov.record_of(c[2][0]), c[2][0])
             )
     return out
 
@@ -1228,6 +1233,19 @@ def record_verbatim(cx: Cx, ob: Ob, class_q: str = "curies.api.Record") -> None:
                     witness="Record(prefix='go ', uri_prefix='u ') stores 'go' / 'u': expand('go :1') is None although the pair was listed",
                     detail=f"config:{k}",
                 )
+        for m in c.methods.values():
+            for dnode in m.node.decorator_list:
+                if isinstance(dnode, ast.Call) and ast.unparse(dnode.func).rsplit(".", 1)[-1] == "field_validator":
+                    mode = next((k.value.value for k in dnode.keywords if k.arg == "mode" and isinstance(k.value, ast.Constant)), "after")
+                    targets = [a.value for a in dnode.args if isinstance(a, ast.Constant)]
+                    if mode == "plain" and any(t in LISTS for t in targets):
+                        ob.violate(
+                            m.qualname,
+                            m.where,
+                            f"{c.name}.{m.name} validates {targets} in mode='plain': pydantic's own list validation (which builds a NEW list) is skipped, so the record stores the very list object it was given - two records built from the same list share it, and an in-place merge into one changes the other",
+                            witness="Record(prefix='a', uri_prefix='u', prefix_synonyms=other.prefix_synonyms) aliases other's list",
+                            detail=f"plain-validator:{m.name}",
+                        )
         for name, (ann, val) in c.fields.items():
             for node in [n for n in (ann, val) if n is not None]:
                 for call in [x for x in ast.walk(node) if isinstance(x, ast.Call)]:
